@@ -1,0 +1,29 @@
+// Package verifhook is the seam through which the verification harness in
+// /verif observes scheduling-relevant operations. It is only referenced from
+// files built with the "verif" build tag; without the tag no call site exists.
+package verifhook
+
+import "unsafe"
+
+// Kinds of points.
+const (
+	KEval    uint8 = iota // entry of eval() for one syntax-tree node (coarse point, no location)
+	KCall                 // immediately before a Go function is invoked by reflection (coarse point)
+	KRead                 // read of a location that can be shared between evaluations
+	KWrite                // write of such a location
+	KLock                 // about to take a write lock (loc = the mutex)
+	KUnlock               // write lock released
+	KRLock                // about to take a read lock
+	KRUnlock              // read lock released
+)
+
+// Sink receives every point when set. The harness installs it before it
+// starts any goroutine and never changes it while goroutines run.
+var Sink func(kind uint8, loc unsafe.Pointer)
+
+// Point reports one point.
+func Point(kind uint8, loc unsafe.Pointer) {
+	if s := Sink; s != nil {
+		s(kind, loc)
+	}
+}
